@@ -164,6 +164,7 @@ class C13(Check):
             ctx.ev("exact_limits", repr(lim["tol"]), lim["min_evaluations"], lim["max_evaluations"])
         sim = cls(cfg, sched["rk"], ctx, [rec])
         sim.eval_cap = 120
+        sim.divergence_is_violation = True      # a driver call that never returns stops at no evaluation at all
         sim.build(reference=cfg["reference"])
         sig = {"strategy": st}
         try:
